@@ -6,13 +6,16 @@ set -e
 cd "$(dirname "$0")/.."
 ROOT=$(pwd)
 export GOFLAGS=-mod=mod GOPROXY=off GOSUMDB=off GOTOOLCHAIN=local CARGO_NET_OFFLINE=true
+# the tree under verification: /repo, or a scratch worktree when VERIF_REPO is set (used to try seeded changes
+# without touching /repo while other runs depend on it)
+REPO=${VERIF_REPO:-/repo}
 what=${1:-all}
 mkdir -p build
 
 build_translator() {
   if [ -f translator/main.go ]; then
     (cd translator && go build -o translator . )
-    ./translator/translator -in /repo/types/keys.go -out build/KeysGen.v.new
+    ./translator/translator -in $REPO/types/keys.go -out build/KeysGen.v.new
     if ! cmp -s build/KeysGen.v.new coq/gen/KeysGen.v; then mkdir -p coq/gen; cp build/KeysGen.v.new coq/gen/KeysGen.v; fi
   fi
 }
@@ -31,7 +34,14 @@ build_model() {
 }
 
 build_harness() {
-  (cd harness && cp /repo/go.sum . && go build -o harness . )
+  if [ "$REPO" = "/repo" ]; then
+    (cd harness && cp /repo/go.sum . && go build -o harness . )
+  else
+    rm -rf build/harness_alt && mkdir -p build/harness_alt && cp harness/*.go harness/go.mod build/harness_alt/
+    sed -i "s#=> /repo\$#=> $REPO#; s#=> /repo #=> $REPO #" build/harness_alt/go.mod
+    grep -q "=> $REPO" build/harness_alt/go.mod || { echo "could not retarget harness go.mod"; return 1; }
+    (cd build/harness_alt && cp $REPO/go.sum . && go build -o ../../harness/harness . )
+  fi
 }
 
 case $what in
